@@ -117,7 +117,8 @@ func runC01(tier string, seed uint64) {
 	if tier == "thorough" {
 		big = append(big, 5<<20+3)
 	}
-	keys := []string{"plain", "nested/dir/obj.txt", "sp ace+plus", "uni/\xe2\x82\xac\xc3\xbc", "q?uery&amp=1", "pct%41%2F", "semi;colon,comma", strings.Repeat("L", 200) + "/" + strings.Repeat("m", 200)}
+	keys := []string{"plain", "nested/dir/obj.txt", "sp ace+plus", "uni/\xe2\x82\xac\xc3\xbc", "q?uery&amp=1", "pct%41%2F", "semi;colon,comma", strings.Repeat("L", 200) + "/" + strings.Repeat("m", 200),
+		" padded with blanks ", "tab\tand trailing blank "} // white space is part of a key, wherever it stands
 	metas := [][]KV{
 		nil,
 		{{"Content-Type", "application/x-verif"}, {"X-Amz-Meta-One", "1"}},
